@@ -65,12 +65,17 @@ Definition held (d : dpc) : N := if deq_busy d then 1 else 0.
 (* is the processor about to return a window slot? *)
 Definition credit (p : ppc) : N := match p with PAckDel _ => 1 | _ => 0 end.
 
-(* c16_slots_not_lost2: the clause c16_slots_not_lost of ConnSpec4.v with one correction: an
-   acknowledgement that was received frees its window slot only when the stored packet has
-   been deleted successfully ([s2_ack]: acknowledgements in the processor's hands).  The
-   dequeuer (a goroutine that has delivered before and is not inside Dequeue) reports a
-   token-wait timeout only when  in flight + acknowledgements in hand >= W,  unless the peer
-   has acknowledged an id not in flight. *)
+(* c16_slots_not_lost2 ("window slots are returned by every completed handshake and are not
+   lost over time or across reconnects"): the dequeuer — a goroutine that has delivered before
+   and is not inside Dequeue ([s2_idle]: set at its successful send of a fresh PUBLISH, cleared
+   at its next Dequeue call) — reports a token-wait timeout (EDie g KClient) only when the
+   window is full:  in flight + acknowledgements in hand >= W,  unless the peer has
+   acknowledged an id not in flight ([s2_spur], same rules as wb_spur).  In flight
+   ([s2_fl], same rules as wb_fl): fresh PUBLISH, dup PUBLISH and PUBREL sent successfully and
+   not yet acknowledged.  An acknowledgement that was received frees its slot only when the
+   stored packet has been deleted successfully ([s2_ack]: acknowledgements in the processor's
+   hands; a failed Delete leaves the id there: that slot is legitimately gone, the connection
+   is dying). *)
 Record sl2_st := Sl2St { s2_w : N; s2_fl : list N; s2_ack : list N; s2_spur : bool; s2_idle : list N }.
 Definition sl2_step (s : sl2_st) (e : event) : option sl2_st :=
   match e with
